@@ -98,8 +98,11 @@ Definition burn (s : ist) (from kind t amt : Z) : result ist :=
   else Ok (with_bal s (ladd (ladd (ibal s) (from, kind, t) (- amt)) (Supply, kind, t) (- amt))).
 
 (* erc20 ConvertCoin(coin of pair t, amount) for `who` (native-coin pair): escrow the coin in the erc20 module, mint ERC-20 *)
+(* MintingEnabled: the module-wide governance parameter EnableErc20 first, then the pair's own switch.
+   The parameter is kept in pair_on under the pseudo pair id Erc20Switch (toggled by TogglePair Erc20Switch). *)
+Definition Erc20Switch : Z := -1.
 Definition convert_coin (who t amt : Z) (s : ist) : result ist :=
-  if negb (pair_on s t) then Err s else
+  if negb (pair_on s Erc20Switch && pair_on s t) then Err s else
   bind (pay s who ModErc20 ACoin t amt) (fun s1 => Ok (mint s1 who AErc t amt)).
 
 (* the asset a received / refunded voucher of this denom is held in *)
